@@ -13,6 +13,7 @@ ALLC = ['format_trashinfo', 'for_file', 'parse_path', 'parse_deletion_date']
 def config(tier):
     return {
         'level': 'exploration',
+        'cold_sample': 3 if tier == 'quick' else 20,
         'cases': 2400 if tier == 'quick' else 50000,
         'budget_s': 50 if tier == 'quick' else 560,
         'floors': {'cases': 200, 'c_format_trashinfo': 30000,
